@@ -55,6 +55,8 @@ pub struct XferCfg {
     pub resend_request: bool,
     /// writer: the process dies after having sent this many DATA datagrams (possibly mid-window)
     pub die_after_blocks: Option<u64>,
+    /// reader: a slow client that waits this long before every ACK it sends
+    pub think_ns: Ns,
     /// a finished client closes its socket at once (what real clients do): later datagrams bounce
     pub close_when_done: bool,
 }
@@ -74,6 +76,7 @@ impl XferCfg {
             script: vec![],
             resend_request: true,
             die_after_blocks: None,
+            think_ns: 0,
             close_when_done: false,
         }
     }
@@ -208,6 +211,12 @@ impl Reader {
     }
 
     fn send_ack(&mut self, cx: &mut Cx, idx: u64) {
+        if self.cfg.think_ns > 0 {
+            // a slow client: the ACK leaves after its think time (token space above 2^62)
+            self.last_ack_sent = Some(idx);
+            cx.timer(self.cfg.think_ns, (1u64 << 62) | idx);
+            return;
+        }
         if let Some(t) = self.tid {
             self.last_ack_sent = Some(idx);
             self.acks_sent += 1;
@@ -378,7 +387,9 @@ impl Peer for Reader {
             _ => {}
         }
         self.rx += 1;
-        if self.run_script(cx) {
+        // a client does not answer an ERROR: scripted misbehaviour applies to ongoing transfers only
+        let refused = matches!(rfc::decode(data), Some(Pkt::Error { .. }));
+        if !refused && self.run_script(cx) {
             return;
         }
         let pkt = rfc::decode(data);
@@ -414,6 +425,15 @@ impl Peer for Reader {
     }
 
     fn on_timer(&mut self, cx: &mut Cx, token: u64) {
+        if token & (1u64 << 62) != 0 && token != u64::MAX {
+            if !self.silent {
+                if let Some(t) = self.tid {
+                    self.acks_sent += 1;
+                    cx.send(t, &rfc::encode(&Pkt::Ack((token & 0xffff) as u16)));
+                }
+            }
+            return;
+        }
         if token != self.gen || self.silent {
             return;
         }
@@ -650,7 +670,9 @@ impl Peer for Writer {
             _ => {}
         }
         self.rx += 1;
-        if self.run_script(cx) {
+        // a client does not answer an ERROR: scripted misbehaviour applies to ongoing transfers only
+        let refused = matches!(rfc::decode(data), Some(Pkt::Error { .. }));
+        if !refused && self.run_script(cx) {
             return;
         }
         if self.status != Status::Running {
